@@ -257,6 +257,23 @@ class Driver:
 TRANSLATED_PROPS = {"C01", "C02", "C03", "C04", "C05", "C06", "C07", "C09", "C10", "C11", "C12", "C13", "C14", "C18"}
 
 
+# which properties each translated function serves (DESIGN 3.1b, column "used by"): a function that is not translated any
+# more (outside the subset, or its equality does not check for the current text) intensifies the checks of THESE properties
+FUNC_PROPS = {
+    "crc8Calculate": {"C12", "C13", "C01"}, "checksum": {"C12", "C13", "C01"}, "frameTobytes": {"C12", "C01"},
+    "frameValidate": {"C13", "C14", "C01"}, "commandPayload": {"C12", "C01"}, "setStateBody": {"C10", "C12", "C01"},
+    "toggleDisplayBody": {"C12"}, "getStateBody": {"C12"}, "getEnergyBody": {"C12"}, "getHumidityBody": {"C12"},
+    "getCapabilitiesBody": {"C12"}, "parseTemperature": {"C11", "C01"}, "parseState": {"C11", "C01"},
+    "applyCommand": {"C10", "C01"}, "buildHeader": {"C05", "C06", "C07"}, "encodeEncryptedRequest": {"C05", "C07", "C01"},
+    "encodeHandshakeRequest": {"C06", "C07"}, "decodeEncryptedResponse": {"C05", "C09", "C01"},
+    "decodeHandshakeResponse": {"C06", "C09"}, "processPacket": {"C05", "C06", "C09", "C01"}, "getLocalKey": {"C06", "C09"},
+    "writeV3": {"C07", "C01"}, "reasmStep": {"C04", "C09", "C01"}, "packetEncode": {"C02", "C01"},
+    "packetDecode": {"C02", "C03", "C09", "C01"}, "responseValidate": {"C13", "C14"}, "constructDispatch": {"C13", "C14", "C01"},
+    "constructOuter": {"C14"}, "parseHumidity": {"C14"}, "nextMessageId": {"C12"}, "getDeviceVersion": {"C17", "C18"},
+    "securitySign": {"C02", "C03"}, "securityUdpid": {"C17", "C19"},
+}
+
+
 def property_files(pid):
     """the source files a property is anchored in (properties.jsonl)"""
     try:
